@@ -630,8 +630,8 @@ ALL_SEQS = [''.join(t) for n in range(1, 11) for t in itertools.product('SF', re
 
 def plan(tier, seed):
     if tier == 'quick':
-        return [{'shard': i, 'of': 16, 'random': QUICK_RUNS // 16, 'enumerate': False} for i in range(16)]
-    return [{'shard': i, 'of': 64, 'random': THOROUGH_RANDOM // 64, 'enumerate': True} for i in range(64)]
+        return [{'shard': i, 'of': 16, 'random': QUICK_RUNS // 16, 'enumerate': False} for i in range(16)] + [{'shard': 900 + i, 'daemon': True, 'part': i, 'cases': 2} for i in range(4)]
+    return [{'shard': i, 'of': 64, 'random': THOROUGH_RANDOM // 64, 'enumerate': True} for i in range(64)] + [{'shard': 900 + i, 'daemon': True, 'part': i, 'cases': 8} for i in range(8)]
 
 
 def run_case(res: Result, daemon, o: dict, results: str, disabled: str, term: str) -> None:
@@ -642,7 +642,130 @@ def run_case(res: Result, daemon, o: dict, results: str, disabled: str, term: st
         shutil.rmtree(scratch, ignore_errors=True)
 
 
+SEQ = """import sys, os, fcntl
+# the check command of the healthcheck: takes the next scripted result (S -> exit 0, F -> exit 1); the last one repeats
+path = sys.argv[1]
+with open(path, 'r+') as f:
+    fcntl.flock(f, fcntl.LOCK_EX)
+    data = f.read()
+    cur = data[0] if data else 'S'
+    if len(data) > 1:
+        f.seek(0); f.write(data[1:]); f.truncate()
+    with open(path + '.log', 'a') as g:
+        g.write(cur)
+sys.exit(0 if cur == 'S' else 1)
+"""
+
+
+def run_daemon(desc):
+    """the REAL healthcheck program as the helper process of the REAL daemon, its check command answering from a script; what a
+    scripted peer receives is held to the hysteresis: never `up` without `rise` successes in a row, never `down` (or a
+    withdrawal) without `fall` failures in a row, and the state the last run of results leads to is the one the peer ends in"""
+    import struct as _struct
+    import time
+
+    from vlib import daemon, exa
+    from vlib import refwire as rw
+
+    res = Result()
+    r = random.Random(desc['seed'] * 67867967 + desc['part'])
+    for ci in range(desc['cases']):
+        rise, fall = r.choice([1, 2, 3]), r.choice([1, 2, 3])
+        wod = r.random() < 0.5
+        body = ''.join(r.choice('SF') for _ in range(r.randrange(2, 7)))
+        tail = r.choice('SF') * (max(rise, fall) + 2)
+        results = body + tail
+        up, down = 50, 900
+        cmd = f'@PY@ -m exabgp healthcheck --cmd "@PY@ @DIR@/seq.py @DIR@/results" --ip 10.55.0.1/32 --interval 0.3 --fast-interval 0.3 --rise {rise} --fall {fall} --no-syslog --up-metric {up} --down-metric {down}' + (' --withdraw-on-down' if wod else '')
+        text = 'process hc {\n    run ' + cmd + ';\n    encoder text;\n}\n' + exa.neighbor_text(extra='    adj-rib-out true;\n    api { processes [ hc ]; }')
+        d = daemon.Daemon(text, files={'seq.py': SEQ, 'results': results}, env={'exabgp_api_version': '4'} if ci % 2 else None)
+        wit = {'rise': rise, 'fall': fall, 'withdraw_on_down': wod, 'results': results, 'command': cmd, 'level': 'daemon', 'api_version': 4 if ci % 2 else 6}
+        cls = f'daemon:rise{rise}:fall{fall}:' + ('wod' if wod else 'metric')
+        peer = None
+        try:
+            d.start()
+            peer = d.accept()
+            peer.establish(65001)
+            rx = []
+            end = time.monotonic() + 60
+            while time.monotonic() < end:
+                rx += peer.drain(quiet=0.3, limit=2)
+                try:
+                    consumed = open(d.path('results.log')).read()
+                except OSError:
+                    consumed = ''
+                if len(consumed) >= len(results) + 2:
+                    break
+            else:
+                raise daemon.Inconclusive(f'the healthcheck consulted its command {len(consumed)} times in 60 s, {len(results) + 2} were expected: ' + d.tail(300))
+            rx += peer.drain(quiet=1.0, limit=5)
+            consumed = open(d.path('results.log')).read()
+        except daemon.Inconclusive as e:
+            res.inconclusive.append('daemon: ' + str(e)[:300])
+            continue
+        finally:
+            try:
+                if peer is not None:
+                    peer.close()
+            except Exception:  # noqa
+                pass
+            d.stop()
+        # the history the peer saw for the prefix: 'up' / 'down' / 'withdrawn'
+        hist = []
+        try:
+            for t, b in rx:
+                if t != 2:
+                    continue
+                dec = rw.dec_update(bytes(b), rw.sess(asn4=True, addpath=()))
+                if dec['eor']:
+                    continue
+                for n in dec['withdraw']:
+                    if n['prefix'] == '10.55.0.1/32':
+                        hist.append('withdrawn')
+                for n, hops in dec['announce']:
+                    if n['prefix'] == '10.55.0.1/32':
+                        med = dict(dec['attrs']).get(rw.MED) if isinstance(dec.get('attrs'), (list, tuple)) else None
+                        if med is None:
+                            for flags, code, value in rw.dec_attr_tlvs(rw.split_update(bytes(b))[1]):
+                                if code == 4:
+                                    med = _struct.unpack('!L', value)[0]
+                        hist.append('up' if med == up else 'down' if med == down else f'med-{med}')
+        except rw.RefError as e:
+            res.violation('C20/daemon:undecodable-update', str(e), wit, cls)
+            continue
+        wit['peer_history'] = hist
+        wit['consulted'] = consumed
+        s_run = max((len(x) for x in consumed.split('F')), default=0)
+        f_run = max((len(x) for x in consumed.split('S')), default=0)
+        bad = False
+        if 'up' in hist and s_run < rise:
+            res.violation('C20/daemon:up-before-rise', f'the peer was sent the up announcement although no {rise} successes in a row were seen ({consumed})', wit, cls)
+            bad = True
+        if ('down' in hist or 'withdrawn' in hist) and f_run < fall:
+            res.violation('C20/daemon:down-before-fall', f'the peer was sent the down announcement / a withdrawal although no {fall} failures in a row were seen ({consumed})', wit, cls)
+            bad = True
+        if any(h.startswith('med-') for h in hist):
+            res.violation('C20/daemon:wrong-metric', f'announcement with a metric which is neither the up nor the down one: {hist}', wit, cls)
+            bad = True
+        if (wod and 'down' in hist) or (not wod and 'withdrawn' in hist):
+            res.violation('C20/daemon:wrong-down-action', f'withdraw-on-down={wod} but the peer history is {hist}', wit, cls)
+            bad = True
+        final = hist[-1] if hist else None
+        want = 'up' if tail[0] == 'S' else ('withdrawn' if wod else 'down')
+        if want == 'withdrawn' and final is None:
+            final = 'withdrawn'  # never announced at all: the peer holds nothing, which is what a withdrawal leaves
+        if final != want:
+            res.violation(f'C20/daemon:final-state:{want}', f'after {len(tail)} equal results in a row (rise {rise}, fall {fall}) the peer ends on {final!r}, expected {want!r}; history {hist}', wit, cls)
+            bad = True
+        if not bad:
+            res.ok(cls, (rise, fall, wod, tuple(hist)))
+            res.ok('daemon:healthcheck')
+    return res
+
+
 def run_shard(desc):
+    if desc.get('daemon'):
+        return run_daemon(desc)
     import exabgp
     from vlib import hc_helpers as H
 
@@ -691,7 +814,7 @@ REQUIRED_CLASSES = {
     'quick': CELLS
     + TRANSITIONS
     + ['exit-withdraw:int', 'exit-withdraw:term', 'line-valid:up', 'line-valid:down', 'line-valid:disabled', 'line-valid:withdraw', 'line-valid:exit']
-    + ['announce:up-after-rise', 'announce:down-after-fall', 'hold:single-contrary']
+    + ['announce:up-after-rise', 'announce:down-after-fall', 'hold:single-contrary', 'daemon:healthcheck']
     + ['opt:withdraw-on-down', 'opt:announce-on-down', 'opt:debounce', 'opt:no-debounce', 'opt:ipv4', 'opt:ipv6', 'opt:ipv4+ipv6']
     + ['opt:start-ip', 'opt:next-hop', 'opt:increase', 'opt:community', 'opt:disabled-community', 'opt:extended-community', 'opt:large-community']
     + ['opt:as-path', 'opt:state-as-path', 'opt:state-metric', 'opt:local-preference', 'opt:path-id', 'opt:deagg', 'opt:via-config', 'opt:no-ack']
